@@ -43,19 +43,19 @@ fn s_atan2(x: f64, y: f64) -> f64 { record2(22, x, y) }
 fn s_powi(x: f64, n: i32) -> f64 { record2(23, x, n as f64) }
 
 // ---- exact IEEE arms (C05) ----------------------------------------------------------------------------
-// @obligation owners=C05,C14,C20 fn=eval_f64::ast::eval/Number
+// @obligation owners=C05,C14,C20 fn=eval_f64::ast::eval/Number exact=1
 #[kani::proof]
 fn step_number() { let a: f64 = kani::any();
     match eval(Node::Number(a)) { Ok(v) => assert!(v.to_bits() == a.to_bits(), "leaf returns its payload unchanged, bit for bit"), Err(e) => { std::mem::forget(e); assert!(false, "never Err") } } }
-// @obligation owners=C05,C20,C15 fn=eval_f64::ast::eval/Add
+// @obligation owners=C05,C20,C15 fn=eval_f64::ast::eval/Add exact=1
 #[kani::proof]
 fn step_add() { let a: f64 = kani::any(); let b: f64 = kani::any();
     match eval(Node::Add(num(a), num(b))) { Ok(v) => assert!(same(v, a + b), "IEEE addition"), Err(e) => { std::mem::forget(e); assert!(false, "never Err") } } }
-// @obligation owners=C05,C20,C15 fn=eval_f64::ast::eval/Subtract
+// @obligation owners=C05,C20,C15 fn=eval_f64::ast::eval/Subtract exact=1
 #[kani::proof]
 fn step_subtract() { let a: f64 = kani::any(); let b: f64 = kani::any();
     match eval(Node::Subtract(num(a), num(b))) { Ok(v) => assert!(same(v, a - b), "IEEE subtraction, operands in order"), Err(e) => { std::mem::forget(e); assert!(false, "never Err") } } }
-// @obligation owners=C05,C20,C15 fn=eval_f64::ast::eval/Multiply
+// @obligation owners=C05,C20,C15 fn=eval_f64::ast::eval/Multiply exact=1
 #[kani::proof]
 fn step_multiply() { let a: f64 = kani::any(); let b: f64 = kani::any();
     match eval(Node::Multiply(num(a), num(b))) { Ok(v) => assert!(same(v, a * b), "IEEE multiplication"), Err(e) => { std::mem::forget(e); assert!(false, "never Err") } } }
@@ -63,27 +63,27 @@ fn step_multiply() { let a: f64 = kani::any(); let b: f64 = kani::any();
 #[kani::proof]
 fn step_divide() { let a: f64 = kani::any(); let b: f64 = kani::any();
     match eval(Node::Divide(num(a), num(b))) { Ok(v) => assert!(same(v, a / b), "IEEE division, non-finite results are values"), Err(e) => { std::mem::forget(e); assert!(false, "never Err") } } }
-// @obligation owners=C05,C19,C15 fn=eval_f64::ast::eval/Negative
+// @obligation owners=C05,C19,C15 fn=eval_f64::ast::eval/Negative exact=1
 #[kani::proof]
 fn step_negative() { let a: f64 = kani::any();
     match eval(Node::Negative(num(a))) { Ok(v) => assert!(v.to_bits() == (a.to_bits() ^ (1u64 << 63)), "unary minus flips the sign bit"), Err(e) => { std::mem::forget(e); assert!(false, "never Err") } } }
-// @obligation owners=C05,C10,C15 fn=eval_f64::ast::eval/Abs
+// @obligation owners=C05,C10,C15 fn=eval_f64::ast::eval/Abs exact=1
 #[kani::proof]
 fn step_abs() { let a: f64 = kani::any();
     match eval(Node::Abs(num(a))) { Ok(v) => assert!(v.to_bits() == (a.to_bits() & !(1u64 << 63)), "abs clears the sign bit"), Err(e) => { std::mem::forget(e); assert!(false, "never Err") } } }
-// @obligation owners=C05,C10,C15 fn=eval_f64::ast::eval/Floor
+// @obligation owners=C05,C10,C15 fn=eval_f64::ast::eval/Floor exact=1
 #[kani::proof]
 fn step_floor() { let a: f64 = kani::any();
     match eval(Node::Floor(num(a))) { Ok(v) => assert!(same(v, a.floor())), Err(e) => { std::mem::forget(e); assert!(false, "never Err") } } }
-// @obligation owners=C05,C10,C15 fn=eval_f64::ast::eval/Ceil
+// @obligation owners=C05,C10,C15 fn=eval_f64::ast::eval/Ceil exact=1
 #[kani::proof]
 fn step_ceil() { let a: f64 = kani::any();
     match eval(Node::Ceil(num(a))) { Ok(v) => assert!(same(v, a.ceil())), Err(e) => { std::mem::forget(e); assert!(false, "never Err") } } }
-// @obligation owners=C05,C10,C15 fn=eval_f64::ast::eval/Truncate
+// @obligation owners=C05,C10,C15 fn=eval_f64::ast::eval/Truncate exact=1
 #[kani::proof]
 fn step_truncate() { let a: f64 = kani::any();
     match eval(Node::Truncate(num(a))) { Ok(v) => assert!(same(v, a.trunc())), Err(e) => { std::mem::forget(e); assert!(false, "never Err") } } }
-// @obligation owners=C05,C10,C15 fn=eval_f64::ast::eval/Round
+// @obligation owners=C05,C10,C15 fn=eval_f64::ast::eval/Round exact=1
 #[kani::proof]
 fn step_round() { let a: f64 = kani::any();
     match eval(Node::Round(num(a))) { Ok(v) => {
@@ -115,99 +115,99 @@ fn step_modulo_total() { let a: f64 = kani::any(); let b: f64 = kani::any();
     match eval(Node::Modulo(num(a), num(b))) { Ok(_) => {}, Err(e) => { std::mem::forget(e); assert!(false, "never Err") } } }
 
 // ---- arms that apply one libm primitive (C05 pow/sqrt, C10 the rest): mapping proofs -------------------
-// @obligation owners=C05,C10 fn=eval_f64::ast::eval/Sqrt
+// @obligation owners=C05,C10 fn=eval_f64::ast::eval/Sqrt exact=1
 #[kani::proof]
 #[kani::stub(f64::sqrt, s_sqrt)]
 fn step_sqrt() { let a: f64 = kani::any();
     match eval(Node::Sqrt(num(a))) { Ok(v) => assert!(once1(1, a, v), "applies the primitive once to the operand and returns its result unchanged"), Err(e) => { std::mem::forget(e); assert!(false, "never Err") } } }
-// @obligation owners=C10 fn=eval_f64::ast::eval/Sin
+// @obligation owners=C10 fn=eval_f64::ast::eval/Sin exact=1
 #[kani::proof]
 #[kani::stub(f64::sin, s_sin)]
 fn step_sin() { let a: f64 = kani::any();
     match eval(Node::Sin(num(a))) { Ok(v) => assert!(once1(2, a, v), "applies the primitive once to the operand and returns its result unchanged"), Err(e) => { std::mem::forget(e); assert!(false, "never Err") } } }
-// @obligation owners=C10 fn=eval_f64::ast::eval/Cos
+// @obligation owners=C10 fn=eval_f64::ast::eval/Cos exact=1
 #[kani::proof]
 #[kani::stub(f64::cos, s_cos)]
 fn step_cos() { let a: f64 = kani::any();
     match eval(Node::Cos(num(a))) { Ok(v) => assert!(once1(3, a, v), "applies the primitive once to the operand and returns its result unchanged"), Err(e) => { std::mem::forget(e); assert!(false, "never Err") } } }
-// @obligation owners=C10 fn=eval_f64::ast::eval/Tan
+// @obligation owners=C10 fn=eval_f64::ast::eval/Tan exact=1
 #[kani::proof]
 #[kani::stub(f64::tan, s_tan)]
 fn step_tan() { let a: f64 = kani::any();
     match eval(Node::Tan(num(a))) { Ok(v) => assert!(once1(4, a, v), "applies the primitive once to the operand and returns its result unchanged"), Err(e) => { std::mem::forget(e); assert!(false, "never Err") } } }
-// @obligation owners=C10 fn=eval_f64::ast::eval/Sinh
+// @obligation owners=C10 fn=eval_f64::ast::eval/Sinh exact=1
 #[kani::proof]
 #[kani::stub(f64::sinh, s_sinh)]
 fn step_sinh() { let a: f64 = kani::any();
     match eval(Node::Sinh(num(a))) { Ok(v) => assert!(once1(5, a, v), "applies the primitive once to the operand and returns its result unchanged"), Err(e) => { std::mem::forget(e); assert!(false, "never Err") } } }
-// @obligation owners=C10 fn=eval_f64::ast::eval/Cosh
+// @obligation owners=C10 fn=eval_f64::ast::eval/Cosh exact=1
 #[kani::proof]
 #[kani::stub(f64::cosh, s_cosh)]
 fn step_cosh() { let a: f64 = kani::any();
     match eval(Node::Cosh(num(a))) { Ok(v) => assert!(once1(6, a, v), "applies the primitive once to the operand and returns its result unchanged"), Err(e) => { std::mem::forget(e); assert!(false, "never Err") } } }
-// @obligation owners=C10 fn=eval_f64::ast::eval/Tanh
+// @obligation owners=C10 fn=eval_f64::ast::eval/Tanh exact=1
 #[kani::proof]
 #[kani::stub(f64::tanh, s_tanh)]
 fn step_tanh() { let a: f64 = kani::any();
     match eval(Node::Tanh(num(a))) { Ok(v) => assert!(once1(7, a, v), "applies the primitive once to the operand and returns its result unchanged"), Err(e) => { std::mem::forget(e); assert!(false, "never Err") } } }
-// @obligation owners=C10 fn=eval_f64::ast::eval/Asin
+// @obligation owners=C10 fn=eval_f64::ast::eval/Asin exact=1
 #[kani::proof]
 #[kani::stub(f64::asin, s_asin)]
 fn step_asin() { let a: f64 = kani::any();
     match eval(Node::Asin(num(a))) { Ok(v) => assert!(once1(8, a, v), "applies the primitive once to the operand and returns its result unchanged"), Err(e) => { std::mem::forget(e); assert!(false, "never Err") } } }
-// @obligation owners=C10 fn=eval_f64::ast::eval/Acos
+// @obligation owners=C10 fn=eval_f64::ast::eval/Acos exact=1
 #[kani::proof]
 #[kani::stub(f64::acos, s_acos)]
 fn step_acos() { let a: f64 = kani::any();
     match eval(Node::Acos(num(a))) { Ok(v) => assert!(once1(9, a, v), "applies the primitive once to the operand and returns its result unchanged"), Err(e) => { std::mem::forget(e); assert!(false, "never Err") } } }
-// @obligation owners=C10 fn=eval_f64::ast::eval/Atan
+// @obligation owners=C10 fn=eval_f64::ast::eval/Atan exact=1
 #[kani::proof]
 #[kani::stub(f64::atan, s_atan)]
 fn step_atan() { let a: f64 = kani::any();
     match eval(Node::Atan(num(a))) { Ok(v) => assert!(once1(10, a, v), "applies the primitive once to the operand and returns its result unchanged"), Err(e) => { std::mem::forget(e); assert!(false, "never Err") } } }
-// @obligation owners=C10,C13 fn=eval_f64::ast::eval/Arsinh
+// @obligation owners=C10,C13 fn=eval_f64::ast::eval/Arsinh exact=1
 #[kani::proof]
 #[kani::stub(f64::asinh, s_asinh)]
 fn step_arsinh() { let a: f64 = kani::any();
     match eval(Node::Arsinh(num(a))) { Ok(v) => assert!(once1(11, a, v), "applies the primitive once to the operand and returns its result unchanged"), Err(e) => { std::mem::forget(e); assert!(false, "never Err") } } }
-// @obligation owners=C10,C13 fn=eval_f64::ast::eval/Arcosh
+// @obligation owners=C10,C13 fn=eval_f64::ast::eval/Arcosh exact=1
 #[kani::proof]
 #[kani::stub(f64::acosh, s_acosh)]
 fn step_arcosh() { let a: f64 = kani::any();
     match eval(Node::Arcosh(num(a))) { Ok(v) => assert!(once1(12, a, v), "applies the primitive once to the operand and returns its result unchanged"), Err(e) => { std::mem::forget(e); assert!(false, "never Err") } } }
-// @obligation owners=C10,C13 fn=eval_f64::ast::eval/Artanh
+// @obligation owners=C10,C13 fn=eval_f64::ast::eval/Artanh exact=1
 #[kani::proof]
 #[kani::stub(f64::atanh, s_atanh)]
 fn step_artanh() { let a: f64 = kani::any();
     match eval(Node::Artanh(num(a))) { Ok(v) => assert!(once1(13, a, v), "applies the primitive once to the operand and returns its result unchanged"), Err(e) => { std::mem::forget(e); assert!(false, "never Err") } } }
-// @obligation owners=C10 fn=eval_f64::ast::eval/Ln
+// @obligation owners=C10 fn=eval_f64::ast::eval/Ln exact=1
 #[kani::proof]
 #[kani::stub(f64::ln, s_ln)]
 fn step_ln() { let a: f64 = kani::any();
     match eval(Node::Ln(num(a))) { Ok(v) => assert!(once1(14, a, v), "applies the primitive once to the operand and returns its result unchanged"), Err(e) => { std::mem::forget(e); assert!(false, "never Err") } } }
-// @obligation owners=C10 fn=eval_f64::ast::eval/Exp
+// @obligation owners=C10 fn=eval_f64::ast::eval/Exp exact=1
 #[kani::proof]
 #[kani::stub(f64::exp, s_exp)]
 fn step_exp() { let a: f64 = kani::any();
     match eval(Node::Exp(num(a))) { Ok(v) => assert!(once1(15, a, v), "applies the primitive once to the operand and returns its result unchanged"), Err(e) => { std::mem::forget(e); assert!(false, "never Err") } } }
-// @obligation owners=C10 fn=eval_f64::ast::eval/Exp2
+// @obligation owners=C10 fn=eval_f64::ast::eval/Exp2 exact=1
 #[kani::proof]
 #[kani::stub(f64::exp2, s_exp2)]
 fn step_exp2() { let a: f64 = kani::any();
     match eval(Node::Exp2(num(a))) { Ok(v) => assert!(once1(16, a, v), "applies the primitive once to the operand and returns its result unchanged"), Err(e) => { std::mem::forget(e); assert!(false, "never Err") } } }
 
-// @obligation owners=C10 fn=eval_f64::ast::eval/Lb
+// @obligation owners=C10 fn=eval_f64::ast::eval/Lb exact=1
 #[kani::proof]
 #[kani::stub(f64::log, s_log)]
 #[kani::stub(f64::log2, s_log2)]
 fn step_lb() { let a: f64 = kani::any();
     match eval(Node::Lb(num(a))) { Ok(v) => assert!(once2(21, a, 2.0, v) || once1(17, a, v), "lb(x) = log(x, 2) or log2(x)"), Err(e) => { std::mem::forget(e); assert!(false, "never Err") } } }
-// @obligation owners=C05,C10,C13 fn=eval_f64::ast::eval/Pow
+// @obligation owners=C05,C10,C13 fn=eval_f64::ast::eval/Pow exact=1
 #[kani::proof]
 #[kani::stub(f64::powf, s_powf)]
 fn step_pow() { let a: f64 = kani::any(); let b: f64 = kani::any();
     match eval(Node::Pow(num(a), num(b))) { Ok(v) => assert!(once2(20, a, b, v), "x ^ y = powf(x, y): base first"), Err(e) => { std::mem::forget(e); assert!(false, "never Err") } } }
-// @obligation owners=C10 fn=eval_f64::ast::eval/Root
+// @obligation owners=C10 fn=eval_f64::ast::eval/Root exact=1
 #[kani::proof]
 #[kani::stub(f64::powf, s_powf)]
 fn step_root() { let n: f64 = kani::any(); let x: f64 = kani::any();
@@ -218,18 +218,18 @@ fn step_root() { let n: f64 = kani::any(); let x: f64 = kani::any();
 #[kani::stub(f64::powf, s_powf)]
 fn step_root_exponent_bounded() { let i: i8 = kani::any(); kani::assume(i >= -16 && i <= 16); let n = i as f64; let x: f64 = kani::any();
     match eval(Node::Root(num(n), num(x))) { Ok(v) => assert!(once2(20, x, 1.0 / n, v), "root(n, x) = x ^ (1/n)"), Err(e) => { std::mem::forget(e); assert!(false, "never Err") } } }
-// @obligation owners=C10 fn=eval_f64::ast::eval/Log
+// @obligation owners=C10 fn=eval_f64::ast::eval/Log exact=1
 #[kani::proof]
 #[kani::stub(f64::log, s_log)]
 fn step_log() { let x: f64 = kani::any(); let b: f64 = kani::any();
     match eval(Node::Log(num(x), num(b))) { Ok(v) => assert!(once2(21, x, b, v), "log(x, b) = log_b(x): argument first, base second"), Err(e) => { std::mem::forget(e); assert!(false, "never Err") } } }
-// @obligation owners=C10 fn=eval_f64::ast::eval/Atan2
+// @obligation owners=C10 fn=eval_f64::ast::eval/Atan2 exact=1
 #[kani::proof]
 #[kani::stub(f64::atan2, s_atan2)]
 fn step_atan2() { let y: f64 = kani::any(); let x: f64 = kani::any();
     match eval(Node::Atan2(num(y), num(x))) { Ok(v) => assert!(once2(22, y, x, v), "atan2(y, x)"), Err(e) => { std::mem::forget(e); assert!(false, "never Err") } } }
 
-// @obligation owners=C10,C15 fn=eval_f64::ast::eval/Sign
+// @obligation owners=C10,C15 fn=eval_f64::ast::eval/Sign exact=1
 #[kani::proof]
 fn step_sign() { let a: f64 = kani::any();
     match eval(Node::Sign(num(a))) { Ok(v) => {
